@@ -425,7 +425,7 @@ def c07(tier, seed):
     # select_on_container_copy_construction returning another instance: every block of the copy (storage and address table) comes from it
     obs += [copy_ob('C07', lid, 'OP_COPY_CTOR', akind='soccc-ne', aflags='AF_SOCCC', eq=0) for lid in (['V1', 'N2'] if tier == 'quick' else lists)]
     obs += pool_seq('C07', lists, tier, aflags='0')
-    obs += pool_elem('C07', ['V1', 'N2', 'F1', 'N1'] if tier == 'quick' else ['F1', 'V1', 'M1', 'N1', 'N2', 'P2'])
+    obs += pool_elem('C07', ['V1', 'N2', 'F1', 'N1', 'U1'] if tier == 'quick' else ['F1', 'V1', 'M1', 'N1', 'N2', 'P2', 'U1'])  # U1: the only list kind whose element block is reused in place
     return obs
 
 
